@@ -156,7 +156,6 @@ theorem apply_sound (x : Ctx) (c : Cont) (op : Op) (s : SSt) (h : StOK x s) :
   | unknown w => rfl
 
 
-namespace Inst
 
 theorem runOps_sound (x : Ctx) (ops : List Op) (s : SSt) (h : StOK x s) :
     gSt x (sRunOps ops s) = runOps x.content ops (gSt x s) ∧ StOK x (sRunOps ops s) := by
